@@ -237,15 +237,25 @@ class C10(Check):
                   'broadcast on a possibly destroyed condition variable - a genuine defect, repaired); after join the state is aborted '
                   'only if abort() was requested since the start and finished otherwise; no ring slot is handed to two consumers or '
                   'producers, a pop returns the job pushed under its ticket, queued jobs are not lost. LIVENESS ("every join eventually '
-                  'returns"): NOT PROVED for the code as it is now; proved are only: the state can change no more exactly when every '
-                  'thread is blocked, and such a state is permanent (join_liveness_partial); refuted by machine-checked witnesses (a) for '
+                  'returns"): PROVED IN PART. (A) DEADLOCK FREEDOM IS A THEOREM (no_reachable_deadlock): for every schedule and every '
+                  'well-formed configuration of the repaired code (any number of clients, futures, script operations and workers, any '
+                  'queue capacity >= 1, _minThreads >= 0, _maxThreads >= 2 - the constructor raises it to 3 -, no started function that '
+                  'polls isAborting() or starts a future) no reachable state has every thread blocked while a client script is '
+                  'unfinished; it follows from a second inductive invariant (wakeup_invariant_all_schedules): the wake-up bookkeeping of '
+                  'the two FastSignals that the repairs fixes/C10/01-03 establish, the accounting of _threadCount / _pushedJobs / '
+                  '_processedJobs against live workers, queued null jobs and clients about to start a worker, and "the call of a started, '
+                  'unfinished future is in its owner\'s push loop, queued, or held by a worker that is not blocked"; hence while a client '
+                  'is unfinished some thread can take a step that changes the state (some_thread_can_move), and a state changes no more '
+                  'exactly when every thread is blocked (join_liveness_partial). (B) NOT PROVED: that under a fair scheduler the moves '
+                  'cannot go on for ever without every join returning (no livelock of the CAS retry loops and of the reset/wait loops of '
+                  'workers and producers; no measure is formalised) - this part is validated by explicit-state search of the model in '
+                  'bounded configurations and by real-thread runs only. The clause is refuted by machine-checked witnesses (a) for '
                   'the sleep/wake handshake as it was before fixes/C10/01-03 (three genuine lost-wake-up defects, repaired) and (b) for '
                   'the code as it is now when started functions start futures themselves ("started from any threads": workers block in '
-                  'start() on a full queue that only workers drain - OPEN finding). Otherwise the clause is validated by explicit-state '
-                  'search of the model in bounded configurations and by real-thread runs. The model is tied to the code by running the '
+                  'start() on a full queue that only workers drain - OPEN finding). The model is tied to the code by running the '
                   'same client scripts on the extracted model/spec and on an ASan/UBSan build of the working tree with real threads under '
                   'injected delays, spurious wake-ups and gated replays of model schedules.')
-    level_note = ('PROVED (Properties_C10.v, 19 theorems, all closed under the global context): model_invariant_all_schedules, '
+    level_note = ('PROVED (Properties_C10.v, 23 theorems, all closed under the global context): model_invariant_all_schedules, '
                   'each_call_runs_at_most_once, joined_call_ran_exactly_once, run_uses_given_arguments, starts_unique, '
                   'result_is_return_value, result_after_join (OGet of a future that is not joinable = return value of the latest start), '
                   'destructor_waits_for_worker (c_sigfix = true: every EvDestroy is clean = no thread stands at PopRead/PopRelease/KWSet/'
@@ -260,14 +270,38 @@ class C10(Check):
                   'capacity >= 1, every future named in a script exists and is used by ONE client thread (two threads operating one Future '
                   'object concurrently is outside the statement), c_nested = false (started functions that start futures are outside the '
                   'safety theorems; they are covered by the correspondence runs - stream nested - and by the refutation above). '
-                  'NOT PROVED: "every join eventually returns" for the code as it is now (c_fixed = c_sigfix = true, c_nested = false); the '
-                  'intended statement is in the header of Properties_C10.v: forall cfg own sched, wf_cfg cfg own -> c_fixed cfg = true -> '
-                  'c_sigfix cfg = true -> terminating_scripts cfg = true -> deadlocked cfg (fst (exec cfg sched)) = false, plus a fairness/'
-                  'measure argument against livelock. It is validated only by (1) exhaustive explicit-state search (ocaml/future_driver.ml '
-                  'search, not a proof) of the model: 1 client, 3 workers, windows of 4 script operations, queue capacity 4 (9.3M states, '
-                  'exhausted) and 1 (15.5M states, exhausted); 2 clients, 3 futures, capacity 1, the whole run (7.0M states, exhausted): no '
-                  'reachable state with all threads blocked and a client unfinished, while the same search finds the deadlocks of the old '
-                  'handshake and a random-schedule hunt finds the nested-start deadlock; (2) the real-thread runs below. Fairness of the OS '
+                  'LIVENESS, part (A), PROVED for all schedules and all configurations with wf_cfg, c_fixed = c_sigfix = true, '
+                  'terminating_scripts (no start with work = 3, the function that polls isAborting()), 0 <= c_min, 2 <= c_max: '
+                  'wakeup_invariant_all_schedules (LInv, FutureLiveDefs.v: 20 clauses, each an arithmetic statement over the number of '
+                  'threads whose program counter lies in a class - lock holders = lock word; _threadCount = live workers that have not '
+                  'taken a null job + contexts about to be started - queued null jobs + pending decrements, and the first three terms are '
+                  '>= 0; _pushedJobs + claimed-but-uncounted = _processedJobs + queued calls + held calls; for every queued call: a worker '
+                  'is left after the null jobs AHEAD of it in the queue, or a client stands between its push and the worker-count '
+                  'decision with values that force it to start one; FastSignal: _state set => flag set or somebody inside set()/reset() '
+                  'past the _state access (fixes/C10/02); queue non-empty => enqueued _state set or a pending setter (producer past its '
+                  'claim, shrink push = fixes/C10/03, worker after a successful SECOND pop = fixes/C10/01) or a worker re-examining the '
+                  'queue after its reset with an up-to-date or still valid head; a producer in the full-queue path => queue non-empty or '
+                  'dequeued _state set or a reader about to set it or a producer re-examining after its reset; two ring clauses (a claimed '
+                  'ticket is published or being written; the slot of a future ticket is free or its previous lap is queued or being read); '
+                  'phase of a future => where its call is; join waits only on a joinable future; per-thread typing), '
+                  'all_blocked_means_clients_done (GInv + LInv + every thread blocked => no client unfinished), no_reachable_deadlock '
+                  '(deadlocked cfg (fst (exec cfg sched)) = false), some_thread_can_move (client unfinished => exists a thread that is not '
+                  'blocked and whose step changes the state). The hypotheses 0 <= c_min and 2 <= c_max are facts of the code (usize; the '
+                  'constructor sets _maxThreads >= 3) and are needed: Example deadlock_without_workers (c_max = 0). Every candidate clause was '
+                  'first evaluated on all states of explicit-state searches and random runs of the extracted model (a scratch mode of the '
+                  'driver: 1 client/capacity 1 exhausted at 3.2M states, 2 and 3 clients 6M and 4M states, random runs with 4 clients 20M '
+                  'states, no violation; the same evaluation flags the FastSignal clause on the handshake as it was) before it was proved. '
+                  'NOT PROVED, part (B): termination under fairness (every thread that is not blocked moves eventually => every join '
+                  'returns after finitely many moves): it needs a measure that decreases along the CAS retry loops (a failed CAS means '
+                  'another thread claimed a ticket) and along the pop-reset-pop-wait / push-reset-push-wait loops (an iteration needs a '
+                  'set() by another thread; there are finitely many claims and sets per script operation); not formalised. It is validated '
+                  'only by sampling: (1) every model run of the check follows a pseudo-random schedule that picks among the threads able '
+                  'to move (a fair scheduler with probability one) and ends with all clients finished within the step budget (a run that '
+                  'does not would print `! timeout`); (2) the real-thread runs below. The exhaustive explicit-state searches '
+                  '(ocaml/future_driver.ml search: 1 client, 3 workers, windows of 4 script operations, queue capacity 4, 9.3M states, and '
+                  '1, 15.5M states; 2 clients, 3 futures, capacity 1, the whole run, 7.0M states) look for reachable deadlocks only - what '
+                  'they found absent in those bounds is now the theorem; the same search finds the deadlocks of the old '
+'handshake and a random-schedule hunt finds the nested-start deadlock; (2) the real-thread runs below. Fairness of the OS '
                   'scheduler is not modelled. Modelling abstractions: sequential consistency (visibility on real hardware is not modelled); '
                   'Signal (mutex+condvar+flag) is an atomic flag with a wait that passes iff set (its own correctness, including spurious '
                   'wake-ups, is C11) - only the position of the broadcast in Signal::set relative to the unlock is modelled (WBcast); '
@@ -322,7 +356,7 @@ class C10(Check):
                    'a case that does not end within the 20 s watchdog counts as a deadlock (cases take milliseconds)',
                    'gate op lines are scheduling directives for the harness only; model and spec read them as pause',
                    'the safety theorems assume that started functions do not start futures themselves and that one thread operates a Future object',
-                   'liveness of the code as it is now is searched in bounded model configurations, not proved']
+                   'liveness of the code as it is now: absence of deadlock is a theorem about the model (all schedules, all configurations); termination under a fair scheduler (no livelock) is searched in bounded model configurations and sampled on the real code, not proved']
 
     def gen_tables(self):
         """translator tie: the 22 hand-copied `start` overloads and 2 `proc` templates of Future.hpp and the 22 call records
